@@ -568,7 +568,15 @@ fn shape_batches<P: G>(cfg: Cfg) -> Box<dyn Case> {
         }
         let delta = Scalar::from(0xdead_beefu64);
         // member kinds: honest, d1[k]+delta, d1[k]-delta (k = 0 and last), r1+1
-        let kinds: Vec<(&str, i8, usize)> = vec![("honest", 0, 0), ("d1[0]+", 1, 0), ("d1[0]-", -1, 0), ("d1[last]+", 1, cfg.d - 1), ("d1[last]-", -1, cfg.d - 1), ("r1+1", 2, 0)];
+        let mut kinds: Vec<(&str, i8, usize)> = vec![("honest", 0, 0), ("d1[0]+", 1, 0), ("d1[0]-", -1, 0), ("d1[last]+", 1, cfg.d - 1), ("d1[last]-", -1, cfg.d - 1), ("r1+1", 2, 0)];
+        // the honest proof re-encoded under a neighbouring extension degree (one response scalar more / fewer): not a proof
+        // for this statement at any batch position
+        if cfg.d < 6 {
+            kinds.push(("degree+1", 3, 0));
+        }
+        if cfg.d > 1 {
+            kinds.push(("degree-1", 4, 0));
+        }
         let mut members: Vec<Vec<(RangeStatement<P>, tari_bulletproofs_plus::range_proof::RangeProof<P>, bool)>> = Vec::new();
         for pos in 0..2usize {
             let mut row = Vec::new();
@@ -588,6 +596,14 @@ fn shape_batches<P: G>(cfg: Cfg) -> Box<dyn Case> {
                     1 => q.d1[*k] += delta,
                     -1 => q.d1[*k] -= delta,
                     2 => q.r1 += Scalar::ONE,
+                    3 => {
+                        q.ext += 1;
+                        q.d1.push(Scalar::from(5u8));
+                    },
+                    4 => {
+                        q.ext -= 1;
+                        q.d1.pop();
+                    },
                     _ => {},
                 }
                 let mut t = CTX_A.transcript();
@@ -755,7 +771,7 @@ fn shape_long_batch<P: G>(len: usize) -> Box<dyn Case> {
 pub fn run(rep: &mut Report) {
     rep.rule = "configuration lattice x proof shapes {honest, every single mutation of the wire form, generic (symbolic) proofs x \
                 response-scalar alphabet x promise alphabet, dishonest-witness proofs from the reference prover (v-p in {-1,2^n,2^n+1}, \
-                one non-bit digit at each position), wrong round counts / degrees, batches of 257 / 513 with one false member at 0, 100, 255, 256 and last, 2-member batches over {honest, d1[k]+/-delta (cancel under equal weights), r1+1}^2} x environment deviations {zero challenge at each \
+                one non-bit digit at each position), wrong round counts / degrees, batches of 257 / 513 with one false member at 0, 100, 255, 256 and last, 2-member batches over {honest, d1[k]+/-delta (cancel under equal weights), r1+1, re-encoded under degree+/-1}^2} x environment deviations {zero challenge at each \
                 draw, identity at each commitment generator}; oracle = verdict equality with the reference relation and (over F) \
                 equality of the compared element with weight x reference linear form as a coefficient vector"
         .into();
